@@ -16,6 +16,8 @@ RULE = ("vec.* cases: (a) for every length 0..8 (rationals) one history containi
         "operation, and for f64 the four norms (p in [1,8]), the norm laws on (u, v, u+v, c*u), linspace/powspace (n = 0..64), "
         "f64*vector, conj/real/abs/norm_inf of complex vectors, constructors; (c) seeded random edit histories of up to 60 operations "
         "(push/push_front/insert/pop/swap/resize/assign/clear/sort/find and the rest, ~1/6 deliberately out of range); "
+        "(d) the adversarial family of the recorded finding f64-square-range: f64 vectors with entries whose square leaves the normal range, "
+        "spacings whose b-a overflows (norms, norm laws, linspace, powspace; lengths 1..8); "
         "distinct = distinct executor line; non-trivial = non-empty vector or an operation that must panic")
 TRUSTED = ["Coq 8.16.1 kernel + vm_compute (primitive floats: bit-exact IEEE binary64)", "Rust executor /verif/harness (kinds vec.*; Rat = i128 rationals)",
            "python driver: generators, plain-list reference model, mpmath norm reference, stream comparators",
@@ -283,6 +285,27 @@ def generate(rng, tier):
         if n % 8 == 0: cases.append(random_case(n))
     # norm laws on mismatched sizes (the + guard), norm_inf of the empty vector is in the sweep above (n = 0)
     cases.append(normlaws_case([1.0, 2.0], [1.0], 2.0, 2.0, "norm-laws"))
+    # (d) the recorded finding `f64-square-range` (KNOWN_FINDINGS.txt): entries whose square leaves the normal f64 range
+    #     (|x| in 1e-200..1e-155 or 1e155..1e300), spacings whose b - a overflows.  Runs on every check; the float model
+    #     reproduces the implementation's inf / 0 / NaN bit for bit, the oracle reports them, finding_key classifies them.
+    g = rng.fork("range")
+    def ext(huge):
+        x = (0.5 + g.unit()) * 10.0 ** (g.range(155, 300) if huge else -g.range(155, 200))
+        return -x if g.chance(1, 2) else x
+    def extvec(n, huge):
+        v = [ext(huge) if g.chance(1, 2) else (val(g, 'f64') if huge else 0.0) for _ in range(n)]
+        v[g.below(n)] = ext(huge)
+        return v
+    for n in range(1, 9):
+        for huge in (True, False):
+            for _ in range(2 if thorough else 1):
+                cases.append(norms_case(extvec(n, huge), g.choice([2.0, 3.0, 1.5, 8.0]), "range-extreme"))
+                cases.append(normlaws_case(extvec(n, huge), rvec(g, 'f64', n) if huge else extvec(n, False),
+                                           g.choice([0.5, -0.25, 1.0]), g.choice([2.0, 3.0]), "range-extreme"))
+        a = -(0.6 + 0.4 * g.unit()) * 1.7e308; b = (0.6 + 0.4 * g.unit()) * 1.7e308
+        if g.chance(1, 2): a, b = b, a
+        cases.append(linspace_case(a, b, n + 1, "range-extreme"))
+        cases.append(powspace_case(a, b, n + 1, g.choice([1.0, 2.0, 0.5]), "range-extreme"))
     # (c) random edit histories
     g = rng.fork("hist")
     nh = 600 if thorough else 150
@@ -364,6 +387,49 @@ def close(x, ref, scale=None, rtol=1e-12):
 def fl(items, k):
     return bits_f64(items[k][1])
 
+def normlaws_vectors(m):
+    """the four vectors whose norms a vec.normlaws case reports: u, v, u+v, u*c (IEEE, entry by entry)"""
+    u, v, c = m["u"], m["v"], m["c"]
+    return [u, v, [a + b for a, b in zip(u, v)], [a * c for a in u]]
+
+def check_norm_values(vec, got, p, w):
+    """got = [norm_1, norm_2, norm_p, norm_inf] as returned for `vec`.  None, or a description that starts with the tag
+    [<operation>#<w>] of the first operation whose value is not the definition's (norm_1 and norm_inf first)."""
+    n1, n2, npp, ninf = ref_norms(vec, p)
+    scale = float(n1) if n1 < 1e308 else None
+    g1, g2, gp, ginf = got
+    if ginf != float(ninf): return "[norm_inf#%d] norm_inf of %r is %r, definition gives %r" % (w, vec, ginf, float(ninf))
+    if not close(g1, n1, scale): return "[norm_1#%d] norm_1 of %r is %r, definition gives %r" % (w, vec, g1, float(n1))
+    if not close(g2, n2, scale): return "[norm_2#%d] norm_2 of %r is %r, definition gives %r" % (w, vec, g2, float(n2))
+    if not close(gp, npp, scale): return "[norm_p#%d] norm_p(%r) of %r is %r, definition gives %r" % (w, p, vec, gp, float(npp))
+    return None
+
+# ------------------------------------------------------------------ the recorded finding (KNOWN_FINDINGS.txt, open:)
+F64_MIN_NORMAL = 2.2250738585072014e-308
+def square_leaves_normal_range(x):
+    """x finite and non-zero whose square is not a normal f64 (overflows, or underflows to a subnormal / zero)"""
+    if x == 0 or not math.isfinite(x): return False
+    try:
+        y = x * x
+    except OverflowError:
+        return True
+    return (not math.isfinite(y)) or abs(y) < F64_MIN_NORMAL
+
+def finding_key(case, desc, items):
+    """`f64-square-range` exactly when the failing operation is norm_2 / norm_p / linspace / powspace on f64 AND the
+    INPUT of that operation has a component whose square (for the spacings: the difference b - a) is outside the
+    normal f64 range.  Decided from the input, never from the failure; everything else stays a VIOLATION."""
+    m = case.meta; kind = m.get("kind")
+    if case.elt != 'f64' or not isinstance(desc, str): return None
+    import re as _re
+    t = _re.match(r"\[(norm_2|norm_p)#(\d)\]", desc)
+    if t and kind in ("norms", "normlaws"):
+        vec = m["v"] if kind == "norms" else normlaws_vectors(m)[int(t.group(2))]
+        return "f64-square-range" if any(square_leaves_normal_range(x) for x in vec) else None
+    if kind in ("linspace", "powspace") and desc.startswith("[%s]" % kind):
+        return "f64-square-range" if not math.isfinite(m["b"] - m["a"]) else None
+    return None
+
 def oracle(case, items):
     m = case.meta; kind = m.get("kind")
     elt = case.elt
@@ -378,14 +444,11 @@ def oracle(case, items):
     if kind == "norms":
         v, p = m["v"], m["p"]
         if len(items) != 4 or any(it[0] != 'f' for it in items[:3]): return "malformed norms answer %r" % (items[:5],)
-        n1, n2, npp, ninf = ref_norms(v, p)
-        scale = float(n1)
-        for name, k, ref in (("norm_1", 0, n1), ("norm_2", 1, n2), ("norm_p(%r)" % p, 2, npp)):
-            if not close(fl(items, k), ref, scale): return "%s of %r is %r, definition gives %r" % (name, v, fl(items, k), float(ref))
         if not v:
-            return None if items[3][0] == 'P' else "norm_inf of the empty vector returned a value"
-        if items[3][0] != 'f' or fl(items, 3) != float(ninf): return "norm_inf of %r is %r, definition gives %r" % (v, items[3], float(ninf))
-        return None
+            if not all(fl(items, k) == 0.0 for k in range(3)): return "[norm_1] norms of the empty vector are not 0: %r" % (items[:3],)
+            return None if items[3][0] == 'P' else "[norm_inf] norm_inf of the empty vector returned a value"
+        if items[3][0] != 'f': return "[norm_inf] norm_inf of %r panicked" % (v,)
+        return check_norm_values(v, [fl(items, k) for k in range(4)], p, 0)
     if kind == "normlaws":
         u, v, c, p = m["u"], m["v"], m["c"], m["p"]
         if len(u) != len(v):
@@ -394,33 +457,41 @@ def oracle(case, items):
             return None       # norm_inf of the empty vector panics (index): nothing to compare
         if len(items) != 16 or any(it[0] != 'f' for it in items): return "malformed norm-laws answer %r" % (items[:6],)
         N = [[fl(items, 4 * w + k) for k in range(4)] for w in range(4)]     # rows u, v, u+v, c*u ; columns 1, 2, p, inf
+        vecs = normlaws_vectors(m)
+        # (1) every value is the definition's value of the vector it was computed from (names the failing operation) ...
+        for w, vec in enumerate(vecs):
+            if not all(math.isfinite(x) for x in vec): continue      # u+v or c*u overflowed entry-wise: nothing is claimed
+            d = check_norm_values(vec, N[w], p, w)
+            if d: return d
+        if not all(math.isfinite(x) for vec in vecs for x in vec): return None
+        # (2) ... and the laws themselves hold between the returned values
         names = ["norm_1", "norm_2", "norm_p(%r)" % p, "norm_inf"]
         sl = 1e-12
         for k in range(4):
             nu, nv, ns, nc = N[0][k], N[1][k], N[2][k], N[3][k]
-            if min(nu, nv, ns, nc) < 0 or any(x != x for x in (nu, nv, ns, nc)): return "%s is negative or NaN on %r / %r" % (names[k], u, v)
-            if ns > (nu + nv) * (1 + sl) + 1e-300: return "triangle inequality fails for %s: |u+v| = %r > |u| + |v| = %r (u = %r, v = %r)" % (names[k], ns, nu + nv, u, v)
-            if abs(nc - abs(c) * nu) > sl * max(nc, abs(c) * nu) + 1e-300: return "homogeneity fails for %s: |c u| = %r, |c| |u| = %r (c = %r, u = %r)" % (names[k], nc, abs(c) * nu, c, u)
+            if min(nu, nv, ns, nc) < 0 or any(x != x for x in (nu, nv, ns, nc)): return "[law] %s is negative or NaN on %r / %r" % (names[k], u, v)
+            if ns > (nu + nv) * (1 + sl) + 1e-300: return "[law] triangle inequality fails for %s: |u+v| = %r > |u| + |v| = %r (u = %r, v = %r)" % (names[k], ns, nu + nv, u, v)
+            if abs(nc - abs(c) * nu) > sl * max(nc, abs(c) * nu) + 1e-300: return "[law] homogeneity fails for %s: |c u| = %r, |c| |u| = %r (c = %r, u = %r)" % (names[k], nc, abs(c) * nu, c, u)
         for w, vec in enumerate((u, v)):
-            n1, n2, npp, ninf = N[w]
-            if not (ninf <= n2 * (1 + sl) and n2 <= n1 * (1 + sl)): return "norm_inf <= norm_2 <= norm_1 fails on %r: %r, %r, %r" % (vec, ninf, n2, n1)
-            if p >= 1 and not (ninf <= npp * (1 + sl) and npp <= n1 * (1 + sl)): return "norm_inf <= norm_p <= norm_1 fails on %r (p = %r): %r, %r, %r" % (vec, p, ninf, npp, n1)
+            n1, n2, npp, ninf = N[w][0], N[w][1], N[w][2], N[w][3]
+            if not (ninf <= n2 * (1 + sl) and n2 <= n1 * (1 + sl)): return "[law] norm_inf <= norm_2 <= norm_1 fails on %r: %r, %r, %r" % (vec, ninf, n2, n1)
+            if p >= 1 and not (ninf <= npp * (1 + sl) and npp <= n1 * (1 + sl)): return "[law] norm_inf <= norm_p <= norm_1 fails on %r (p = %r): %r, %r, %r" % (vec, p, ninf, npp, n1)
         return None
     if kind in ("linspace", "powspace"):
         a, b, n = m["a"], m["b"], m["n"]
-        if not items or items[0] != ('i', n): return "%s(%r, %r, %d) has length %r" % (kind, a, b, n, items[:1])
+        if not items or items[0] != ('i', n): return "[%s] %s(%r, %r, %d) has length %r" % (kind, kind, a, b, n, items[:1])
         xs = [bits_f64(it[1]) for it in items[1:]]
         if len(xs) != n: return "%s: malformed answer" % kind
         if n < 2: return None                                      # the claim is for n >= 2
-        if xs[0] != a: return "%s(%r, %r, %d) starts at %r, not exactly at a" % (kind, a, b, n, xs[0])
-        if abs(xs[-1] - b) > 4 * 2.0 ** -52 * max(abs(a), abs(b)): return "%s(%r, %r, %d) ends at %r, not at b within rounding" % (kind, a, b, n, xs[-1])
+        if xs[0] != a: return "[%s] %s(%r, %r, %d) starts at %r, not exactly at a" % (kind, kind, a, b, n, xs[0])
+        if abs(xs[-1] - b) > 4 * 2.0 ** -52 * max(abs(a), abs(b)): return "[%s] %s(%r, %r, %d) ends at %r, not at b within rounding" % (kind, kind, a, b, n, xs[-1])
         up = all(x <= y for x, y in zip(xs, xs[1:])); down = all(x >= y for x, y in zip(xs, xs[1:]))
-        if (a < b and not up) or (a > b and not down) or (a == b and not (up and down)): return "%s(%r, %r, %d) is not monotone: %r" % (kind, a, b, n, xs)
+        if (a < b and not up) or (a > b and not down) or (a == b and not (up and down)): return "[%s] %s(%r, %r, %d) is not monotone: %r" % (kind, kind, a, b, n, xs)
         mp = _mp()
         for i, x in enumerate(xs):
             t = mp.mpf(i) / (n - 1)
             ref = mp.mpf(a) + (mp.mpf(b) - mp.mpf(a)) * (t if kind == "linspace" else mp.power(t, mp.mpf(m["p"])))
-            if not close(x, ref, max(abs(a), abs(b))): return "%s(%r, %r, %d)[%d] = %r, definition gives %r" % (kind, a, b, n, i, x, float(ref))
+            if not close(x, ref, max(abs(a), abs(b))): return "[%s] %s(%r, %r, %d)[%d] = %r, definition gives %r" % (kind, kind, a, b, n, i, x, float(ref))
         return None
     if kind == "scale_l":
         s, v = m["s"], m["v"]
